@@ -1,7 +1,7 @@
 (* mdl.ml — script driver around the OCaml extraction of the Coq model (coq/extracted/model.ml).
    Executes the same line-oriented scripts as harness/cpp/drv.cpp and prints results in the same format. *)
 open Util
-let reset_all () = G_enc.g_enc := None; G_dec.g_dec := None; G_exp.reset (); G_blk.reset (); More.reset ()
+let reset_all () = G_enc.g_enc := None; G_dec.g_dec := None; G_exp.reset (); G_blk.reset (); G_w.reset (); More.reset ()
 
 let () =
   (try while true do
@@ -18,6 +18,10 @@ let () =
       | "X" :: t -> G_exp.cmd_exp t
       | "F" :: t -> G_exp.cmd_file t
       | "B" :: t -> G_blk.cmd_blk t
+      | "W" :: t -> G_w.cmd_w t
+      | ["TRACE"] -> G_w.trace ()
+      | "CRASHAT" :: _ -> out "ok"
+      | "PRE" :: _ -> out "ok"
       | c :: t -> if not (More.cmd_more c t) then out ("? unknown command " ^ c)
     end
   done with End_of_file -> ());
